@@ -49,17 +49,11 @@ def run(ctx):
     req = model.method(P, "NodeRequire", "evaluate")
 
     # ---------------------------------------------------------------- push / pop summaries
-    def stack_aliases(func):
-        al = set()
-        for n in ast.walk(func.node):
-            if isinstance(n, ast.Assign) and isinstance(n.targets[0], ast.Name) and "modulestack" in norm(n.value):
-                al.add(n.targets[0].id)
-        return al
-
-    aliases = stack_aliases(push) | stack_aliases(pop)
+    from .common import root_field_pred
+    preds = [root_field_pred(model, push, "modulestack"), root_field_pred(model, pop, "modulestack")]
 
     def is_stack(e):
-        return "modulestack" in norm(e) or (isinstance(e, ast.Name) and e.id in aliases)
+        return any(p(e) for p in preds)
 
     def is_append(c):
         return isinstance(c.func, ast.Attribute) and c.func.attr in ("append", "insert", "extend") \
@@ -82,8 +76,18 @@ def run(ctx):
               f"stays on the load stack", expr="push on raise",
               site="Environment.pushModuleStack: nothing pushed when it raises")
     # the cycle test precedes the push and reads the same stack
-    txt = norm(push.node)
-    ok = "if moduleidentifier in base.modulestack" in txt and "base = self.getBase()" in txt
+    from ..facts import must_facts as _mf
+    gp = CFG(push.node, implicit_exc=False)
+    fp = _mf(gp)
+    ident = push.params[1]
+    tests = [n for n in ast.walk(push.node) if isinstance(n, ast.Compare) and len(n.ops) == 1
+             and isinstance(n.ops[0], ast.In) and norm(n.left) == ident and is_stack(n.comparators[0])]
+    ok = len(tests) == 1
+    if ok:
+        ttxt = norm(tests[0])
+        for node in gp.nodes:
+            if stmt_calls(node, is_append):
+                ok = ok and (ttxt, False) in fp.get(node.id, frozenset())
     ctx.check("C10.pair", push, None, ok, "cycle test is not `moduleidentifier in base.modulestack` on the root",
               expr="cycle test", site="Environment.pushModuleStack: membership test on the root's stack")
 
@@ -96,7 +100,7 @@ def run(ctx):
     ctx.check("C10.pair", pop, None, normal == frozenset({1}),
               f"popModuleStack pops {sorted(normal or [])} times", expr="pop count",
               site="Environment.popModuleStack: exactly one pop")
-    ok = "self.getBase().modulestack.pop()" in norm(pop.node)
+    ok = any(isinstance(c, ast.Call) and is_pop(c) and not c.args for c in ast.walk(pop.node))
     ctx.check("C10.pair", pop, None, ok, "popModuleStack does not pop the root's stack", expr="pop target",
               site="Environment.popModuleStack: pops the root's stack")
 
@@ -200,20 +204,64 @@ def run(ctx):
 
     # ---------------------------------------------------------------- shared mutable state
     init = env.methods["__init__"]
-    t = norm(init.node)
-    ok = "if self.parent is None: self.modules = dict() self.modulestack = []" in t.replace("\n", " ")
+    fresh = {}
+    for n in ast.walk(init.node):
+        if isinstance(n, ast.Assign) and len(n.targets) == 1 and norm(n.targets[0]) in ("self.modules", "self.modulestack"):
+            fresh[norm(n.targets[0])] = norm(n.value) in ("dict()", "{}", "[]", "list()")
+    ok = fresh.get("self.modules") is True and fresh.get("self.modulestack") is True \
+        and "modules" not in env.class_attrs and "modulestack" not in env.class_attrs
     ctx.check("C10.globals", init, None, ok,
               "module cache and load stack are not created per root environment in Environment.__init__",
               expr="per-root state", site="Environment.__init__: modules / modulestack created per root")
     MUTABLE_CALLS = {"dict", "list", "set", "defaultdict", "OrderedDict", "deque"}
+    MUT_ = {"append", "extend", "insert", "remove", "pop", "clear", "sort", "update", "add", "discard",
+            "setdefault", "popitem", "reverse"}
+    READ_ONLY_METHODS = {"get", "items", "keys", "values", "index", "count", "copy"}
     for c in model.classes.values():
         for name, val in c.class_attrs.items():
             mutable = isinstance(val, (ast.List, ast.Dict, ast.Set, ast.ListComp, ast.DictComp, ast.SetComp)) or \
                 (isinstance(val, ast.Call) and norm(val.func).split(".")[-1] in MUTABLE_CALLS)
-            ctx.check("C10.globals", f"class {c.name}", val, not mutable,
+            if not mutable:
+                ctx.ob("C10.globals", f"{c.module.rel}: class attribute {c.name}.{name} is not a container", True)
+                continue
+            # a class-level container is shared by every instance: harmless as a constant table, a channel between
+            # interpreters as soon as anything can write to it - directly, or after it escaped (returned, passed
+            # on, aliased)
+            why = None
+            for f in model.all_funcs(True):
+                parents = {}
+                for n in ast.walk(f.node):
+                    for ch in ast.iter_child_nodes(n):
+                        parents[id(ch)] = n
+                for n in ast.walk(f.node):
+                    if not (isinstance(n, ast.Attribute) and n.attr == name):
+                        continue
+                    par = parents.get(id(n))
+                    if isinstance(n.ctx, ast.Store):
+                        continue        # re-binding the attribute on an instance does not touch the shared object
+                    if isinstance(par, ast.Subscript) and par.value is n:
+                        if isinstance(par.ctx, (ast.Store, ast.Del)):
+                            why = f"written by subscript in {f.qual}"
+                        continue
+                    if isinstance(par, ast.Attribute) and par.value is n:
+                        gp = parents.get(id(par))
+                        if isinstance(gp, ast.Call) and gp.func is par:
+                            if par.attr in MUT_:
+                                why = f"mutated with .{par.attr}() in {f.qual}"
+                            elif par.attr not in READ_ONLY_METHODS:
+                                why = f"handed to .{par.attr}() in {f.qual}"
+                            continue
+                    if isinstance(par, ast.Compare) and n in par.comparators:
+                        continue
+                    if isinstance(par, (ast.For, ast.comprehension)) and par.iter is n:
+                        continue
+                    if isinstance(par, ast.Call) and n in par.args and norm(par.func) in ("len", "sorted", "list", "tuple", "set", "dict", "iter", "enumerate"):
+                        continue
+                    why = why or f"escapes in {f.qual} ({norm(par)[:40] if par is not None else ''})"
+            ctx.check("C10.globals", f"class {c.name}", val, why is None,
                       f"class-level mutable container {c.name}.{name}: shared by every instance (and every "
-                      f"interpreter) in the process", expr=f"{c.name}.{name} = {norm(val)[:40]}",
-                      site=f"{c.module.rel}: class attribute {c.name}.{name}")
+                      f"interpreter) in the process, and {why}", expr=f"{c.name}.{name} = {norm(val)[:40]}",
+                      site=f"{c.module.rel}: class attribute {c.name}.{name} (container) is only read")
     allowed_globals = {("FuncRandom.seededRandom", "seed"), ("FuncSetSeed.execute", "seed")}
     for f in model.all_funcs():
         for n in ast.walk(f.node):
